@@ -3,7 +3,7 @@ from __future__ import annotations
 
 import ast
 
-from sa.core import AnalysisError, unparse
+from sa.core import AnalysisError, unparse, walk_no_nested
 from sa.terms import Expander, T
 from . import cable
 
@@ -51,6 +51,8 @@ def check(repo, col, tier):
     col.rule("R-C02-synapse", "synaptic currents are converted with the geometry of the postsynaptic compartment and added there", 6)
     _cl = _idx.compute_slots(repo, col, "R-C02-synapse", emit=())
     _c09._roles(repo, col, _cl, "_synapse_currents", "R-C02-synapse", "R-C02-synapse")
+    col.rule("R-C02-currents", "membrane currents are computed at and accumulated into the rows of their channel", 9)
+    channel_current_rows(repo, col, "R-C02-currents")
     col.rule("R-C02-layout", "every compartment's row is the one its neighbours' couplings point to (padded layout)", 8)
     c01._layout(repo, col, "R-C02-layout")
     col.rule("R-C02-rowsum", "coupling part of the implicit matrices has zero row sums (contribution tables)", 10)
@@ -62,6 +64,68 @@ def check(repo, col, tier):
     # uniform voltage does not stay uniform and charge is not conserved at the branch points
     col.rule("R-C02-levels", "level bookkeeping, branch-point grouping and within-branch edge tables", 8)
     c01_solver._levels(repo, col, "R-C02-levels")
+
+
+def channel_current_rows(repo, col, R):
+    """Module._channel_currents: inside the loop over the channels, every gather of a state / parameter / the voltage and every
+    scatter into the accumulated voltage- and constant terms and into the channel's current use ONE row selector (the rows where
+    the channel is present), and every scatter ACCUMULATES (`.add`): several channels write into one compartment (and into one
+    shared current such as `i_Na`); `.set` would keep only the last channel's contribution -- charge carried by the others is lost."""
+    from . import idx
+    from sa.terms import T, fuse_comprehensions as _fuse
+    fi = repo.method("Module", "_channel_currents")
+    ex = idx.expander(repo, fi)
+    loops = [n for n in walk_no_nested(fi.node) if isinstance(n, ast.For) and any(
+        isinstance(c, ast.Attribute) and c.attr == "compute_current" for c in ast.walk(n))]
+    if not loops:
+        raise AnalysisError("Module._channel_currents: the loop over the channels that calls compute_current vanished")
+    loop = loops[0]
+
+    def N(node):
+        return _fuse(idx.inline(repo, fi, ex.term(node)))
+    sel = None   # the row selector: derived from the presence column of the loop's channel
+    gathers, scatters = [], []
+    for n in ast.walk(loop):
+        if isinstance(n, ast.Subscript) and isinstance(n.ctx, ast.Load):
+            t = N(n)
+            if t.op != "sub":
+                continue
+            base, rows = t.args
+            # dict[key][rows] on the state / parameter dictionaries, voltages[rows]
+            is_tab = base.op == "sub" and base.args[0].op == "param" and base.args[0].name in ("states", "params")
+            if is_tab and rows.op not in ("const", "slice") and not (isinstance(n.value, ast.Attribute) and n.value.attr == "at"):
+                gathers.append((n, rows))
+        elif isinstance(n, ast.Call) and isinstance(n.func, ast.Attribute) and n.func.attr in ("add", "set", "multiply") and \
+                isinstance(n.func.value, ast.Subscript) and isinstance(n.func.value.value, ast.Attribute) and n.func.value.value.attr == "at":
+            scatters.append((n, N(n.func.value.slice), n.func.attr))
+    for n, rows in gathers + [(n_, r_) for n_, r_, _ in scatters]:
+        if T.find(rows, lambda x: x.op == "attr" and x.name == "_name") is not None and \
+                T.find(rows, lambda x: x.op == "const" and x.name == "global_comp_index") is not None:
+            sel = rows
+            break
+    if sel is None or len(gathers) < 3 or len(scatters) < 3:
+        raise AnalysisError(f"Module._channel_currents: row selector / gathers ({len(gathers)}) / scatters ({len(scatters)}) not recognised")
+    # what is handed to compute_current: entries of the local dictionaries filled in the loop are gathered arrays, never whole ones
+    for n in ast.walk(loop):
+        if isinstance(n, ast.Assign) and isinstance(n.targets[0], ast.Subscript) and isinstance(n.targets[0].value, ast.Name):
+            v = N(n.value)
+            if T.find(v, lambda x: x.op == "param" and x.name in ("states", "params")) is None:
+                continue
+            if T.find(v, lambda x: x.op == "mcall" and x.name in ("add", "set")) is not None:
+                continue  # a scatter (checked below)
+            whole = v.op == "sub" and v.args[0].op == "param" and v.args[0].name in ("states", "params")
+            col.check(not whole, R, fi, f"`{unparse(n.targets[0])[:40]}` holds the entries of the channel's own rows", "dict[key][rows]",
+                      f"`{unparse(n)[:70]}` hands the whole array (all compartments) to the channel: rows of compartments that do not carry the "
+                      f"channel are read, and the result no longer has the length of the channel's row selector", node=n)
+    for n, rows in gathers:
+        col.check(rows.key() == sel.key(), R, fi, f"`{unparse(n)[:50]}` is gathered at the channel's own rows", "one row selector",
+                  f"`{unparse(n)[:70]}` is gathered with `{rows.short(60)}`, the channel's rows are `{sel.short(60)}`", node=n)
+    for n, rows, op in scatters:
+        col.check(rows.key() == sel.key(), R, fi, f"`{unparse(n.func)[:50]}` is scattered to the channel's own rows", "one row selector",
+                  f"`{unparse(n)[:70]}` is scattered to `{rows.short(60)}`, the channel's rows are `{sel.short(60)}`", node=n)
+        col.check(op == "add", R, fi, f"`{unparse(n.func)[:50]}` accumulates over the channels", ".at[rows].add(...)",
+                  f"`{unparse(n)[:70]}` uses `.{op}`: the contribution of every earlier channel in the same compartments (or to the same shared "
+                  f"current) is overwritten", node=n)
 
 
 def _stim(repo, col, R="R-C02-stim"):
